@@ -24,13 +24,13 @@ enum {
   F_REUSE = 0, F_PAGE_FULL, F_PAGE_FREED, F_HOLES, F_HUGE, F_OVERALIGNED, F_OFFSET, F_HEAP_DEL, F_HEAP_DESTROY,
   F_REALLOC_INPLACE, F_REALLOC_MOVED, F_ZERO_ON_DIRTY, F_ZCHAIN_INPLACE, F_ZCHAIN_MOVED, F_TFREE, F_TALLOC, F_VISIT,
   F_VISIT_HOLES, F_VISIT_FULL, F_VISIT_STOP, F_EDGE_FAIL, F_PURGE_SEEN, F_LIVE8, F_MULTIHEAP, F_COLLECT, F_LARGEPAGE,
-  F_MISUSE_DETECTED, F_ARENA, F_ABANDONED_VISIT, F_EXPAND, F_NFLAGS
+  F_MISUSE_DETECTED, F_ARENA, F_ABANDONED_VISIT, F_EXPAND, F_ARENA_FULL_NULL, F_EXCL_PRESSURE, F_ARENA_CAP, F_NFLAGS
 };
 static const char* FLAG_NAMES[] = {
   "addr_reuse","page_full","page_freed","page_holes","huge_block","overaligned","offset_aligned","heap_delete","heap_destroy",
   "realloc_inplace","realloc_moved","zero_on_dirty","zchain_inplace","zchain_moved","thread_free","thread_alloc","visit",
   "visit_holes","visit_full","visit_stop","edge_fail","purge_seen","live8","multi_heap","collect","large_page",
-  "misuse_detected","arena","abandoned_visit","expand" };
+  "misuse_detected","arena","abandoned_visit","expand","arena_full_null","unbound_alloc_while_exclusive_arena_in_use","arena_capacity_counted" };
 // ---- counters
 enum { C_ALLOCS = 0, C_FREES, C_REALLOCS, C_BYTES_VERIFIED, C_NULLS, C_EDGE_CALLS, C_VISITED_BLOCKS, C_EXCLUDED, C_PURGE_CALLS, C_OSCALLS, C_ZERO_CHECKED, C_OWN_CHECKS, C_OS_MAP, C_OS_UNMAP, C_OS_COMMIT, C_OS_PROTECT, C_OS_ADVISE, C_FAULT_HIT, C_NULL_UNDER_FAULT, C_NCOUNTERS };
 static const char* COUNTER_NAMES[] = { "allocs","frees","reallocs","bytes_verified","null_returns","edge_calls","visited_blocks","excluded_by_guard","purge_calls","os_calls","zero_bytes_checked","ownership_checks","os_map_calls","os_unmap_calls","os_commit_calls","os_protect_calls","os_advise_calls","faults_hit","null_under_fault" };
@@ -114,6 +114,7 @@ struct Exec {
   Model m; Result& r; std::string mode; long opi = 0;
   bool check_zero = true;       // C04 clauses
   bool check_align = true;      // C03 clauses
+  bool check_arena = false;     // C15 clauses
   bool check_own = false;       // C10 ownership sweeps
   bool police_purge = false;    // C13: purge ranges must not hit live blocks
   bool allow_null = false;      // OS faults armed → NULL is acceptable
@@ -172,6 +173,7 @@ struct Exec {
     size_t u = mi_usable_size(p);
     if (u < n) fail_now("usable", "op#%ld %s: mi_usable_size(%p)=%zu < requested %zu", opi, what, p, u, n);
     check_disjoint(p, u, s, what);
+    check_arena_rules(p, u, home, what);
     b.p = p; b.n = n; b.u = u; b.a = a; b.o = o; b.home = home; b.zmode = zmode; b.key = m.next_key++; b.live = true; b.foreign = false; b.stranded = false;
     if (m.freed_addrs.count((uintptr_t)p)) flag(F_REUSE);
     if (u > 16*MiB) flag(F_HUGE); else if (u > 64*KiB) flag(F_LARGEPAGE);
@@ -193,6 +195,18 @@ struct Exec {
   }
   bool was_dirty(uint8_t* p) { return m.dirty.count((uintptr_t)p & ~(uintptr_t)0xFFFF) != 0; }
 
+  // C15: home >= 1: heap index; home <= -2: foreign thread heap bound to arena (-2 - home); home == -1: foreign unbound heap
+  void check_arena_rules(uint8_t* p, size_t u, int home, const char* what) {
+    if (!check_arena) return;
+    int bound = (home >= 1 ? m.heaps[home].arena : (home <= -2 ? -2 - home : -1));
+    uintptr_t lo = (uintptr_t)p, hi = lo + (u ? u : 1);
+    if (bound >= 0 && m.arenas[bound].valid) { ArenaInfo& A = m.arenas[bound]; if (lo < (uintptr_t)A.start || hi > (uintptr_t)A.start + A.size) fail_now("outside-arena", "op#%ld %s: block [%p,+%zu) from a heap bound to arena %d lies outside the arena area [%p,+%zu)", opi, what, p, u, bound, A.start, A.size); }
+    bool excl_in_use = false;
+    for (int i = 0; i < NARENAS; i++) { ArenaInfo& E = m.arenas[i]; if (!E.valid || !E.exclusive) continue;
+      if (i != bound && lo < (uintptr_t)E.start + E.size && (uintptr_t)E.start < hi) fail_now("exclusive-arena-leak", "op#%ld %s: block [%p,+%zu) from a heap that is not bound to exclusive arena %d lies inside it [%p,+%zu)", opi, what, p, u, i, E.start, E.size);
+      if (i != bound) { auto it = m.live.lower_bound((uintptr_t)E.start); if (it != m.live.end() && it->first < (uintptr_t)E.start + E.size) excl_in_use = true; } }
+    if (excl_in_use && bound < 0) flag(F_EXCL_PRESSURE);
+  }
   void check_alignment(uint8_t* p, size_t n, size_t a, size_t o, const char* what) {
     if (!check_align) return;
     if (a > 1 && (((uintptr_t)p + o) & (a - 1)) != 0) fail_now("alignment", "op#%ld %s: (%p + %zu) not aligned to %zu", opi, what, p, o, a);
@@ -225,7 +239,7 @@ struct Exec {
   void op_alloc(const Op& op); void op_free(const Op& op); void op_realloc(const Op& op); void op_expand(const Op& op);
   void op_fill(const Op& op); void op_rfree(const Op& op, bool threaded); void op_talloc(const Op& op);
   void op_heap(const Op& op); void op_visit(const Op& op); void op_census(const Op& op); void op_edge(const Op& op); void op_arena(const Op& op);
-  void op_opt(const Op& op); void op_misuse(const Op& op); void op_owncheck(); void op_c18(const Op& op); void op_c07(const Op& op);
+  void op_opt(const Op& op); void op_misuse(const Op& op); void op_owncheck(); void op_c18(const Op& op); void op_c07(const Op& op); void op_acap(const Op& op);
   uint8_t* call_alloc(const std::string& f, int h, size_t n, size_t c, size_t a, size_t o, bool& zeroing, size_t& req, size_t& eff_a, size_t& eff_o, bool& valid);
   void free_slot(int s, const std::string& f);
   void finish();
